@@ -130,3 +130,26 @@ Proof.
   intros e. destruct e as [t cu q u x]. destruct t as [|t0 t]; destruct cu as [|cu]; destruct q; destruct x;
     eexists; (split; [vm_compute; reflexivity|reflexivity]).
 Qed.
+
+(* ---------------------------------------------------------------------- *)
+(* EOF: the three clauses of nothing_after_accept that do not survive closing
+   the input, on the instance.  c-x (a prefix of the c-x bindings) is typed,
+   then the write end is closed: read_from_input sets EOFError with c-x still in
+   the key buffer; the next reset() throws it away; a timeoutlen flush arriving
+   before the application has finished stays in the queue and is stored as
+   type-ahead. *)
+Definition w_eof : list label := [LStart; LWrite [24]; LRead 1024; LClose; LRead 1024].
+Definition has_lost (c : core estate bid result) : bool :=
+  existsb (fun e => match e with ELost _ (_ :: _) _ => true | _ => false end) (rlog c).
+Definition has_flush (q : list item) : bool := existsb (fun i => match i with IFlush => true | _ => false end) q.
+
+Lemma witness_eof_kbuf :
+  let s := e_run w_eof (e_init_sys false false) in
+  late (co s) = true /\ length (kbuf (co s)) = 1%nat /\ results (e_run (w_eof ++ [LExit]) (e_init_sys false false)) = [REof].
+Proof. vm_compute. auto. Qed.
+
+Lemma witness_eof_lost : has_lost (co (e_run (w_eof ++ [LExit; LStart]) (e_init_sys false false))) = true.
+Proof. vm_compute. reflexivity. Qed.
+
+Lemma witness_eof_flush_stored : has_flush (store (e_run (w_eof ++ [LFlushKeys; LExit]) (e_init_sys false false))) = true.
+Proof. vm_compute. reflexivity. Qed.
